@@ -72,16 +72,16 @@ class C16(Property):
     def cases(self, tier, seed):
         res = []
         for c in ["Z data str S1 T5:97.34 S2 T5:98 F F | 01", "Z data reader S1 T5:97 F | 1", "Z rdata value S1 T5:97 F | 1",
-                  "W str e1:0 e2:0 l |", "W str l |", "W str e1:0 |", "W str t5:97 |", "W str e1:0 l e2:0 l |", "W str e1:1 l |", "W str e1:0 l | 5"]:
+                  "W str |", "W value |", "W reader |", "W slice |", "W str | 5", "W str e1:0 e2:0 l |", "W str l |", "W str e1:0 |", "W str t5:97 |", "W str e1:0 l e2:0 l |", "W str e1:1 l |", "W str e1:0 l | 5"]:
             res.append(("corpus", c))
         import itertools
         alpha = ["e1:0", "e2:1", "t5:97", "l"]
         n, dl = (4, 3) if tier == "quick" else (5, 4)
-        for ln in range(1, n + 1):
+        for ln in range(0, n + 1):
             for seq in itertools.product(alpha, repeat=ln):
                 for d in range(dl):
                     for mode in (["str", "value"] if ln <= 3 else ["str"]):
-                        res.append(("exhaustive", "W %s %s | %s" % (mode, " ".join(seq), " ".join(str(7 + i) for i in range(d)))))
+                        res.append(("exhaustive", " ".join(["W", mode] + list(seq) + ["|"] + [str(7 + i) for i in range(d)])))
         # deep trees: the event stream is flat, so no nesting depth may be rejected (serde_json's recursion limit of 128
         # concerns the JSON nesting, which stays constant)
         import sys
